@@ -7,6 +7,7 @@ import RasnModel.Driver.C16
 import RasnModel.Driver.C17
 import RasnModel.Driver.Struct
 import RasnModel.Driver.Pipeline
+import RasnModel.Driver.C08
 import RasnModel.Driver.C09
 import RasnModel.Driver.C13
 import RasnModel.Driver.C18
@@ -26,6 +27,7 @@ def dispatch (line : String) : String :=
   | some (.atom "c17report" :: args) => Driver.C17.handleReport args
   | some (.atom "struct" :: args) => Driver.Struct.handle args
   | some (.atom "recgraph" :: args) => Driver.Struct.handleRec args
+  | some (.atom "c08chase" :: args) => Driver.C08.handle args
   | some (.atom "c09" :: args) => Driver.C09.handle args
   | some (.atom "c13skip" :: args) => Driver.C13.handle args
   | some (.atom "c18" :: args) => Driver.C18.handle args
